@@ -2117,6 +2117,14 @@ func runC06(c *Ctx) {
 		c.Note("sharedmesh.nil-vs-first-material")
 	}
 	c.c6TopoFixedCases()
+	c.c6HistoryFixed()
+	// one payload just above 4 MiB through the text container (summaries only); more sizes in the thorough tier
+	c.c6BigText(262144, 262145)
+	if c.Tier == "thorough" {
+		for _, p := range [][2]int{{65536, 65537}, {87382, 87382}, {196608, 196609}, {262144, 262144}, {262145, 262145}, {524288, 524289}} {
+			c.c6BigText(p[0], p[1])
+		}
+	}
 	for k := 0; k < c.N; k++ {
 		level := 2
 		switch k % 5 {
@@ -2144,7 +2152,12 @@ func runC06(c *Ctx) {
 		if k%10 == 8 {
 			s = c.c6TopoScene()
 		}
-		c.c6Case(s, k%2 == 0, "")
+		if k%10 == 2 || k%10 == 6 {
+			// history: a write rejected AFTER this scene's data was written precedes the write that is checked
+			c.c6FailThenWrite(s, k/10, k%4 < 2, k%2 == 0, "")
+		} else {
+			c.c6Case(s, k%2 == 0, "")
+		}
 	}
 	// element counts: every count 1..1100 (quick) / 1..2100 with all vector kinds (thorough); GPU instances at every
 	// fifth count and around the multiples of 341
